@@ -32,6 +32,9 @@ type Input struct {
 	// PK != 0: the chain ends with one more AND unit, `id = PK`, which Find and Count receive as
 	// Where(map) and Update and Delete receive as the primary key of their model value
 	PK int64 `json:"pk,omitempty"`
+	// PK2 != 0 (with PK): the model value is a slice of two records with keys PK and PK2: the unit is
+	// `id IN (PK, PK2)`
+	PK2 int64 `json:"pk2,omitempty"`
 }
 
 const pkAtom = 20
@@ -42,7 +45,11 @@ func (in Input) full() Input {
 		return in
 	}
 	out := in
-	out.Atoms = append(append([]whr.Atom{}, in.Atoms...), whr.Atom{ID: pkAtom, Col: "id", Op: "eq", I: in.PK})
+	pk := whr.Atom{ID: pkAtom, Col: "id", Op: "eq", I: in.PK}
+	if in.PK2 != 0 {
+		pk = whr.Atom{ID: pkAtom, Col: "id", Op: "in", IL: []int64{in.PK, in.PK2}}
+	}
+	out.Atoms = append(append([]whr.Atom{}, in.Atoms...), pk)
 	out.Chain = append(append([]whr.Call{}, in.Chain...), whr.Call{Kind: "where", Unit: whr.Unit{Form: "map", Members: []int{pkAtom}}})
 	return out
 }
@@ -204,7 +211,11 @@ func (e *env) run(orig Input) Obs {
 	if len(inline) > 0 {
 		tx = tx.Where(inline[0], inline[1:]...)
 	}
-	fail("update", tx.Session(&gorm.Session{AllowGlobalUpdate: true}).Model(&whr.T{ID: orig.PK}).Update("mark", 1).Error)
+	var modelValue, deleteValue interface{} = &whr.T{ID: orig.PK}, &whr.T{ID: orig.PK}
+	if orig.PK2 != 0 {
+		modelValue, deleteValue = &[]whr.T{{ID: orig.PK}, {ID: orig.PK2}}, &[]whr.T{{ID: orig.PK}, {ID: orig.PK2}}
+	}
+	fail("update", tx.Session(&gorm.Session{AllowGlobalUpdate: true}).Model(modelValue).Update("mark", 1).Error)
 	o.Update = []int64{}
 	fail("marked", db.Raw("SELECT id FROM ts WHERE mark = 1 ORDER BY id").Scan(&o.Update).Error)
 	fail("unmark", db.Exec("UPDATE ts SET mark = 0").Error)
@@ -225,7 +236,7 @@ func (e *env) run(orig Input) Obs {
 		return tx, inline
 	}
 	dtx, dinline := chainOn(t)
-	fail("delete", dtx.Delete(&whr.T{ID: orig.PK}, dinline...).Error)
+	fail("delete", dtx.Delete(deleteValue, dinline...).Error)
 	var remaining []int64
 	fail("remaining", t.Raw("SELECT id FROM ts ORDER BY id").Scan(&remaining).Error)
 	t.Rollback()
@@ -430,6 +441,18 @@ func main() {
 		}
 		if r.Chance(1, 5) {
 			in.PK = pickPK(r, in)
+			if r.Chance(1, 3) {
+				in.PK2 = pickPK(r, in)
+				clash := in.PK2 == in.PK
+				for _, a := range in.Atoms {
+					if a.Col == "id" && a.Op == "in" {
+						clash = true // (one text for two atoms would be ambiguous for the lexer)
+					}
+				}
+				if clash {
+					in.PK2 = 0
+				}
+			}
 		}
 		kind := "main"
 		if hostile {
